@@ -95,18 +95,23 @@ func (f *FeedbackAdapter) unpackRunLengthChunk(
 	end := start + chunk.RunLength
 	resultIndex := 0
 	for i := start; i != end; i++ {
+		// Every received symbol owns one delta, whether or not the packet is still in the
+		// history; otherwise all later arrival times of this feedback are shifted.
+		received := chunk.PacketStatusSymbol != rtcp.TypeTCCPacketNotReceived
+		if received {
+			if len(deltas)-1 < deltaIndex {
+				return deltaIndex, refTime, result, errInvalidFeedback
+			}
+			refTime = refTime.Add(time.Duration(deltas[deltaIndex].Delta) * time.Microsecond)
+			deltaIndex++
+		}
 		key := feedbackHistoryKey{
 			ssrc:           0,
 			sequenceNumber: i,
 		}
 		if ack, ok := f.history.get(key); ok {
-			if chunk.PacketStatusSymbol != rtcp.TypeTCCPacketNotReceived {
-				if len(deltas)-1 < deltaIndex {
-					return deltaIndex, refTime, result, errInvalidFeedback
-				}
-				refTime = refTime.Add(time.Duration(deltas[deltaIndex].Delta) * time.Microsecond)
+			if received {
 				ack.Arrival = refTime
-				deltaIndex++
 			}
 			result[resultIndex] = ack
 		}
@@ -123,18 +128,23 @@ func (f *FeedbackAdapter) unpackStatusVectorChunk(
 	deltaIndex := 0
 	resultIndex := 0
 	for i, symbol := range chunk.SymbolList {
+		// Every received symbol owns one delta, whether or not the packet is still in the
+		// history; otherwise all later arrival times of this feedback are shifted.
+		received := symbol != rtcp.TypeTCCPacketNotReceived
+		if received {
+			if len(deltas)-1 < deltaIndex {
+				return deltaIndex, refTime, result, errInvalidFeedback
+			}
+			refTime = refTime.Add(time.Duration(deltas[deltaIndex].Delta) * time.Microsecond)
+			deltaIndex++
+		}
 		key := feedbackHistoryKey{
 			ssrc:           0,
 			sequenceNumber: start + uint16(i), //nolint:gosec // G115
 		}
 		if ack, ok := f.history.get(key); ok {
-			if symbol != rtcp.TypeTCCPacketNotReceived {
-				if len(deltas)-1 < deltaIndex {
-					return deltaIndex, refTime, result, errInvalidFeedback
-				}
-				refTime = refTime.Add(time.Duration(deltas[deltaIndex].Delta) * time.Microsecond)
+			if received {
 				ack.Arrival = refTime
-				deltaIndex++
 			}
 			result[resultIndex] = ack
 		}
